@@ -34,7 +34,7 @@ Definition dump (st : state) : list tok :=
     ++ flat_map (fun t => map (fun k => tn_bool (mem k (rev_get t (rev s)))) keys) toks4
     ++ footprint s.
 
-Inductive cmd := CmdOp (o : op) | CmdDump | CmdBad.
+Inductive cmd := CmdOp (o : op) | CmdDump | CmdNop | CmdBad.
 
 Definition parse (t : list tok) : cmd :=
   match t with
@@ -58,6 +58,7 @@ Definition parse (t : list tok) : cmd :=
       match args with [TN n] => CmdOp (OUnfill (zN n)) | _ => CmdBad end
     else if name =? "check" then CmdOp OCheck
     else if name =? "dump" then CmdDump
+    else if name =? "bb" then CmdNop      (* black-box run: nothing of the model is involved *)
     else CmdBad
   | _ => CmdBad
   end.
@@ -81,6 +82,7 @@ Definition step (st : state) (t : list tok) : state * list tok :=
   match parse t with
   | CmdOp o => let st' := apply_op st o in (st', if panicked st' then [TS "panic"] else observe st o st')
   | CmdDump => (st, dump st)
+  | CmdNop => (st, [])
   | CmdBad => (st, [TS "badop"])
   end.
 
